@@ -137,6 +137,13 @@ func configsFor(in *Instance, mode int, full bool) []Config {
 		}
 	} else {
 		shallow := in.Pos == "top" || in.Pos == "file"
+		if in.Op == "file-option" && !strings.HasPrefix(in.Site, "a.proto:") {
+			// quick (third round, pays for the new dimensions): the category / single-rule / older-version configs of
+			// a tracked file option run on the first file only (16 options x every transition); the same edits
+			// in the three other files run under the v2 union. Which file the option sits in and which categories
+			// its rule belongs to are independent; the thorough tier keeps the full product.
+			shallow = false
+		}
 		if mode == SurroundNone && shallow {
 			cats, singles = true, !table
 		} else {
@@ -178,11 +185,17 @@ func run(r *evid.Run) {
 		"file syntax over {proto2, proto3, edition 2023, no declaration}; " +
 		"ignore configurations = per operator of a fixed list and edited file one case x 3 versions x use in {all four categories, the narrowest ID list incl. deprecated IDs} x ignore_only maps of 1 or 2 entries over the key alphabet {expected rules, their categories, the deprecated IDs they replace, one unrelated rule} and the path alphabet {here, elsewhere} (+ ignore: [elsewhere]; + except: [key] under the union), both textual orders, x every rotation of buf's ID maps (map seeds); " +
 		"many-files modules = n small files each with one of six documented edits plus unrelated additions, n from one below the switch to parallel chunks (8 files per unit of parallelism) through every remainder to one past the next multiple and 16p+1, parallelism p in {2,3,4} (thorough: 5, 8) and the machine's own, two package layouts; " +
+		"compound edits = a field keeps its number and is renamed while its scalar kind / message or enum type / map key or value type / cardinality changes too (20 combinations incl. 8 on map fields, plus type + cardinality together) at the 4 positions; " +
+		"ignore-path relations = one module of 12 files whose paths are string prefixes / extensions / tails of each other, one ignore path per configuration out of every file, every directory and 14 names that only exist as string prefixes or extensions (35 paths), as ignore / ignore_only by rule / ignore_only by category x 3 versions x use in {categories, rule list}; " +
+		"v2 workspaces = 2 and 3 modules of six edited files each, every assignment of a section alphabet {none, use WIRE, use FILE, except, ignore, ignore_only, ignore_unstable_packages} to the modules x a top-level alphabet {none, FILE, all, WIRE_JSON, except, unstable, ignore paths in the first / last module, whole module directories, ignore_only}, module directories unrelated or one a string prefix of the other in both list orders; every module checked with the config buf derives for it, a covering subset also on disk through `buf breaking --against`; " +
 		"a case is distinct and non-trivial when the reference model expects at least one annotation for it (key = instance id / surrounding)")
 	r.Assume("expectations claim only what a rule's Purpose text and the rule documentation state; edits whose status the docs leave open (repeated<->map for the wire cardinality rules, STRING_PIECE->STRING, json_name side effect of a rename, proto2 <-> no syntax declaration, explicit zero default <-> no default) carry no expectation")
 	r.Assume("an enum value is 'deleted without reserving the name' when its own name is not reserved in the new enum, also when an alias of the same number did get reserved")
 	r.Assume("a rule is active for a file unless the file is under an `ignore` path or under an `ignore_only` path of an entry standing for the rule: the rule ID itself, a category containing it, or a deprecated ID the rule replaces (a deprecated ID written in use / ignore_only stands for its documented replacements); entries for other IDs or other paths do not affect it")
 	r.Assume("ignore configurations are only applied to edits inside one file that exists in both versions (buf also matches ignore paths against the previous file of a moved / deleted element)")
+	r.Assume("an ignore / ignore_only path silences exactly the file it names or the files below the directory it names (containment by path components, relative to the module, in a v2 workspace relative to the workspace); any other string relation between the path and a file's path leaves the rules active for the file")
+	r.Assume("in a buf.yaml v2 a module is governed by its own breaking section when it has one, otherwise by the top-level breaking section, otherwise by the default `use: FILE` - independently of the sections of the other modules; ignore_unstable_packages does not concern packages with a stable version suffix (v1)")
+	r.Assume("a compound edit on one field is reported by every rule documented for either edit; which of the two field names a message quotes is left open (the number and the message are required)")
 	r.Assume("category membership is the documented rule matrix transcribed in ref.go (docMembershipV2 + per-version deltas); buf's own tables are compared against it (oracle rule-table)")
 	r.Assume("positions are checked by line (the renderer puts every element on its own line); columns are not checked")
 	r.Assume("annotation 'names the element' = message contains the element's number and/or name and its parent's short name, double-quoted, as listed per operator")
@@ -337,7 +350,7 @@ func run(r *evid.Run) {
 			mu.Unlock()
 		})
 	}
-	phase := os.Getenv("VERIF_C03_PHASES") // debugging aid: comma list of main,many-files,ignore-config
+	phase := os.Getenv("VERIF_C03_PHASES") // debugging aid: comma list of main,many-files,ignore-config,path-relations,workspaces
 	if phase != "" {
 		r.Incomplete("filtered run: VERIF_C03_PHASES=" + phase)
 	}
@@ -363,6 +376,16 @@ func run(r *evid.Run) {
 	}
 	r.Set("phase_seconds_ignore_config", int(time.Since(t0).Seconds()))
 	t0 = time.Now()
+	// configuration dimensions of the third round: how an ignore path relates to the edited file's path, and
+	// buf.yaml v2 workspaces (which section governs a module)
+	if want("path-relations") && len(onlyOps) == 0 && !r.Expired() {
+		RunPathRelations(r, eng, full)
+	}
+	if want("workspaces") && len(onlyOps) == 0 && !r.Expired() {
+		RunWorkspaces(r, eng, full)
+	}
+	r.Set("phase_seconds_path_relations_and_workspaces", int(time.Since(t0).Seconds()))
+	t0 = time.Now()
 	// one base at a time (bounds memory: every instance holds its own copy of the new schema)
 	if want("main") {
 		process(SyntaxInstances())
@@ -370,7 +393,7 @@ func run(r *evid.Run) {
 			if r.Expired() {
 				break
 			}
-			process(Instances(b, full))
+			process(append(Instances(b, full), CompoundInstances(b, full)...))
 		}
 	}
 	r.Set("phase_seconds_main", int(time.Since(t0).Seconds()))
@@ -403,7 +426,7 @@ func run(r *evid.Run) {
 	}
 	if !r.Expired() {
 		if len(onlyOps) == 0 {
-			for _, op := range []string{"field-default-values", "enum-alias-delete-number", "field-type-name", "file-syntax", "file-syntax-neutral"} {
+			for _, op := range []string{"field-default-values", "enum-alias-delete-number", "field-type-name", "file-syntax", "file-syntax-neutral", "field-compound"} {
 				if opCount[op] == 0 {
 					r.Incomplete("operator never exercised: " + op)
 				}
